@@ -21,6 +21,7 @@ package main
 import (
 	"fmt"
 	"regexp"
+	"strconv"
 	"strings"
 	"sync/atomic"
 	"time"
@@ -577,7 +578,7 @@ func c12Run(c *Ctx, k *c12Case, d time.Duration) {
 	hints := k.hintMap()
 	// reference call: the encoder core's own outcome and the natural symbol size (0x0 request, margin 0, own format)
 	ref := "na"
-	if k.contents != "" {
+	if k.contents != "" || k.w.name == "UPC_A" { // the UPC-A writer prepends "0" before the emptiness check
 		rh := c14Hints{}
 		for kk, v := range hints {
 			rh[kk] = v
@@ -746,6 +747,25 @@ func runC12(c *Ctx) {
 	}
 	for _, k := range c12Corpus(ws) {
 		c12Run(c, k, d)
+	}
+	// strconv.Atoi vs. the model's atoi (MARGIN / QR_VERSION strings)
+	for i := 0; i < c.Pick(3000, 100000); i++ {
+		var str string
+		switch c.Rng.Intn(4) {
+		case 0:
+			str = fmt.Sprint(c.Rng.Range(-3000, 3000))
+		case 1:
+			str = c12From(c.Rng, "0123456789+-_ x.e", c.Rng.Range(0, 6))
+		case 2:
+			str = c12From(c.Rng, "+-", c.Rng.Intn(2)) + c12Digits(c.Rng, c.Rng.Range(0, 22))
+		default:
+			str = c12From(c.Rng, "+-", 1) + c12From(c.Rng, "0123456789", c.Rng.Range(17, 20))
+		}
+		goOut := "ERR"
+		if v, e := strconv.Atoi(str); e == nil {
+			goOut = fmt.Sprint(v)
+		}
+		c.Cmp("c12-atoi", "c12 atoi "+hexs([]byte(str)), goOut)
 	}
 	n := c.Pick(30000, 3000000)
 	var stop int64
